@@ -69,6 +69,13 @@ func runC08(env *Env) {
 		return
 	}
 	emit := func(c string) { env.Emit("C08 "+c, runHist(strings.Fields(c))) }
+	// "on one exporting process": other exporting processes of the same program keep sending
+	// (their own domain, their own counts) during every session observed here
+	stopNoise := startNoise(2)
+	defer func() {
+		stopNoise()
+		env.Count(fmt.Sprintf("noise/other-exporters-sends>=%d", (noiseSends/1000)*1000))
+	}()
 	small := oneFieldTpl(256, entities.Unsigned8, 4)
 	// the wrap, exactly: counter 2^32-3, then 1, 2 (hits 0), 5 records
 	for _, proto := range []string{"tcp", "udp"} {
